@@ -1192,6 +1192,7 @@ def run_area(chk, prog):
     bvars = [a for a in hi.atoms()]
     rows_ok = False
     why = ''
+    wrong_bound = []
     if len(bvars) == 1 and (hi - Poly.atom(bvars[0])).const_value() == -2:
         bv = bvars[0]
         # every branch before the loop makes bv the row count of M
@@ -1213,8 +1214,12 @@ def run_area(chk, prog):
                         g = prog.funcs.get(cn) if cn else None
                         if cn == 'MatrixCopy' and len(a) == 2 and M in (exprs.path_of(a[1], byname=True) or '') and len(asg) == 1:
                             src = exprs.path_of(a[0], byname=True)
-                            if exprs.to_poly(kids(asg[0])[1], byname=True) == Poly.atom('%s->row' % src):
+                            got = exprs.to_poly(kids(asg[0])[1], byname=True)
+                            if got == Poly.atom('%s->row' % src):
                                 ok_paths += 1
+                            elif got is not None and (got - Poly.atom('%s->row' % src)).const_value() not in (None, 0):
+                                # the copy has src->row rows but the bound is src->row + c: the last segments are dropped (c < 0) or rows past the end are read (c > 0)
+                                wrong_bound.append((asg[0], got, src))
                         elif g is not None and g.body is not None and not asg:
                             # callee sizes the output parameter with the count parameter: ResizeMatrix(out, count, 2)
                             pm = {p_.get('name'): i_ for i_, p_ in enumerate(g.params)}
@@ -1232,10 +1237,17 @@ def run_area(chk, prog):
         bad('AR.sum', 'range', loops[0], 'the accumulation starts at segment %s: the segments before it are not counted' % lp.lo)
     elif off is not None and off != -2:
         bad('AR.sum', 'range', loops[0], 'the accumulation runs over i in [%s, %s]; with %s rows the segments are 0 .. %s-2' % (lp.lo, hi, bvars[0], bvars[0]))
+    elif wrong_bound:
+        a_, got, src = wrong_bound[0]
+        bad('AR.sum', 'bound', a_, 'the polyline copied from %s has %s->row rows, but the accumulation bound %s is set to %s: the segments are 0 .. %s->row-2, '
+            'so the sum over [0, %s] %s' % (src, src, bvars[0], got, src, hi,
+                                           'drops the last segment(s)' if (got - Poly.atom('%s->row' % src)).const_value() < 0 else 'reads rows past the end'))
     elif rows_ok:
         chk.instance(R2, '%s %s starts at 0, += once per i in [0, %s], %s; returned' % (where(loops[0]), acc, hi, why))
     else:
         chk.instance(R2, '%s accumulation range [%s, %s]: %s' % (where(loops[0]), lp.lo, hi, why or 'bound not related to the row count'), 'undecided')
+        chk.broke('AR.sum (curve_area): that the accumulation bound is the row count of the matrix read is not established on every path (%s)' %
+                  (why or 'bound not related to the row count'))
 
 
 def run(chk, prog):
